@@ -534,6 +534,9 @@ func runGC(sp *SpecialCase) *Outcome {
 		caches[i] = nil
 	}
 	caches = nil
+	// a leak verdict needs the 30 s allowance AND at least this many GC rounds
+	// (an unloaded machine does several thousand in 30 s)
+	const minGCRounds = 300
 	deadline := time.Now().Add(30 * time.Second)
 	if sp.Race {
 		deadline = time.Now().Add(5 * time.Second)
@@ -556,6 +559,11 @@ func runGC(sp *SpecialCase) *Outcome {
 		}
 		if sim.BackgroundTasks() == before && atomic.LoadInt64(&gcCollected) >= int64(payloads) {
 			break
+		}
+		if time.Now().After(deadline) && !sp.Race && rounds < minGCRounds && time.Now().Before(deadline.Add(4*time.Minute)) {
+			// a starved process (one round took the whole allowance on a loaded
+			// machine) has not watched long enough to call anything a leak
+			continue
 		}
 		if time.Now().After(deadline) {
 			if sp.Race {
